@@ -70,3 +70,31 @@ Print Assumptions C12_build_listing_invariant.
 Print Assumptions C12_spec_perm_is.
 Print Assumptions C12_spec_perm_sym.
 Print Assumptions C12_config_lists_listing_invariant.
+
+(* ---- the parameter of interest is addressed through the slice layout (ConfigPoi.v): poi_index is the start of the POI's
+   slice = the sum of the sizes of the sets registered before it, for every kind of one-component parameter (normfactor,
+   alpha, lumi, one-bin shapefactor / shapesys / staterror); a POI with several components or without a defining modifier
+   is refused with InvalidModel ---- *)
+Require Import PV.ConfigPoi.
+Theorem C12_poi_index_is_slice_start : forall N (sp : spec N) ps start i, tiles N start ps -> set_poi N sp ps = Ok (Some i) ->
+  exists nm k p, poi sp = Some nm /\ nth_error ps k = Some p /\ p_name N p = nm /\ p_n N p <= 1 /\
+                 i = p_start N p /\ i = (start + total N (firstn k ps))%nat /\
+                 forall j q, j < k -> nth_error ps j = Some q -> p_name N q <> nm.
+Proof. exact poi_index_is_slice_start. Qed.
+Theorem C12_accepted_poi_index : forall N (sp : spec N) md i, build N sp = Ok md -> md_poi N md = Some i ->
+  exists nm k p, poi sp = Some nm /\ nth_error (md_psets N md) k = Some p /\ p_name N p = nm /\ p_n N p <= 1 /\
+                 i = p_start N p /\ i = total N (firstn k (md_psets N md)) /\ (i + p_n N p <= md_npars N md)%nat.
+Proof. exact accepted_poi_index. Qed.
+Theorem C12_poi_refusal : forall N (sp : spec N) ps e, set_poi N sp ps = Err e -> e = EInvalidModel /\
+  exists nm, poi sp = Some nm /\ (find_pset N ps nm = None \/ exists p, find_pset N ps nm = Some p /\ 1 < p_n N p).
+Proof. exact set_poi_refusal. Qed.
+Theorem C12_poi_example_index :
+  match build QcNum poi_example_spec with
+  | Ok md => md_poi QcNum md = Some 4 /\ map (p_name QcNum) (md_psets QcNum md) = ["JES"; "sf_shape"; "sf2"]%string /\
+             map (p_start QcNum) (md_psets QcNum md) = [0; 1; 4] /\ md_npars QcNum md = 5
+  | Err _ => False end.
+Proof. exact poi_example_index. Qed.
+Print Assumptions C12_poi_index_is_slice_start.
+Print Assumptions C12_accepted_poi_index.
+Print Assumptions C12_poi_refusal.
+Print Assumptions C12_poi_example_index.
